@@ -2651,7 +2651,11 @@ impl<T: Storage> Raft<T> {
 
         // Now go ahead and actually restore.
 
-        if self.pending_request_snapshot == INVALID_INDEX
+        // A snapshot below the requested index does not answer the request (it is an
+        // ordinary, possibly delayed one): if it matches the local log it must not
+        // discard the entries after it, which may already have been acknowledged.
+        if (self.pending_request_snapshot == INVALID_INDEX
+            || meta.index < self.pending_request_snapshot)
             && self.raft_log.match_term(meta.index, meta.term)
         {
             info!(
